@@ -114,6 +114,9 @@ structure ReaderExt (M : Type) where
   fromBytes : List Int → Int → Except Err M
   /-- `msg.type == 'sysex'` on a message object (syx.py) -/
   isSysex : M → Bool := fun _ => false
+  /-- `message.bin()` / `message.hex()` of a message object (syx.py): bytes, and text as code points -/
+  bin : M → Except Err (List Int) := fun _ => pure []
+  hex : M → Except Err (List Int) := fun _ => pure []
 
 /-! ### text as code points (syx.py): `bytes.decode('latin1')` is the identity on code points -/
 
